@@ -785,6 +785,30 @@ func (e *Engine) model(st *state, fr *frame, in ssa.CallInstruction, fn *ssa.Fun
 				}
 			}
 		}
+	case "encoding/binary.Encode":
+		// binary.Encode(dst, order, v) with v one fixed-size number: v's bytes written into the first Size(v) bytes of dst
+		// – into the buffer's own bytes an in-place write like ByteOrder.PutUintN
+		if len(args) == 3 {
+			data := stripIface(args[2])
+			if data != nil && data.Type != nil {
+				dt := data.Type
+				if pt, isP := dt.Underlying().(*types.Pointer); isP {
+					dt = pt.Elem()
+					data = e.load(st, data, dt)
+				}
+				if sz, okS := fixedSize(dt); okS && sz > 0 && isIntegerType(dt) {
+					ord := orderOf(args[1])
+					if sz == 1 {
+						ord = ""
+					}
+					if buf := bufferIn(args[0]); buf != nil && len(buf.Args) > 0 {
+						e.addEvent(st, fr, &Event{Kind: EvPanicSite, Mode: "putuint", Args: []*Val{args[0], mkInt(sz)}}, in)
+						e.addEvent(st, fr, &Event{Kind: EvPatch, Buf: buf.Args[0], IntType: dt, Order: ord, Dst: args[0], Src: data, Size: mkInt(sz)}, in)
+						return one(st, tuple(mkInt(sz), mkNil(errT))), true
+					}
+				}
+			}
+		}
 	case "encoding/binary.Decode":
 		// binary.Decode(b, order, &v): v := the number in the first Size(v) bytes of b; an error when b is shorter
 		if len(args) == 3 {
@@ -1228,6 +1252,10 @@ func (e *Engine) model(st *state, fr *frame, in ssa.CallInstruction, fn *ssa.Fun
 		// Unless a check in force establishes that n bytes are there, the call has a second, short outcome: fewer bytes,
 		// the buffer empty afterwards and – unlike Read – nothing that says so except the length of the result.
 		rt := fn.Signature.Results().At(0).Type()
+		// Next(n) slices the buffer's storage: a negative n panics inside the library
+		if _, isC := args[1].Int64(); !isC {
+			e.addEvent(st, fr, &Event{Kind: EvPanicSite, Mode: "negcount", Args: []*Val{args[1]}}, in)
+		}
 		guarded := isZero(args[1])
 		for _, c := range st.conds {
 			if availabilityGuard(c, args[1]) {
